@@ -93,6 +93,21 @@ impl MemTable {
 		}
 	}
 
+	/// Whether `batch` is guaranteed to fit a fresh memtable of `arena_capacity`
+	/// bytes. A batch that does not can never be applied - not by the commit
+	/// that carries it and not by replaying the commit log - so it has to be
+	/// refused before anything of it is written.
+	pub(crate) fn fits_when_empty(batch: &Batch, arena_capacity: usize) -> bool {
+		let capacity = arena_capacity.min(arena::MAX_ARENA_SIZE);
+		let needed = batch.entries.iter().fold(skiplist::EMPTY_ARENA_SIZE, |acc, e| {
+			acc.saturating_add(skiplist::max_entry_arena_size(
+				e.key.len(),
+				e.value.as_ref().map_or(0, |v| v.len()),
+			))
+		});
+		needed <= capacity
+	}
+
 	/// Sets the WAL number associated with this memtable.
 	/// This should be called when the memtable starts receiving writes
 	/// to track which WAL contains its data.
